@@ -163,7 +163,9 @@ def hxc_jobs(Job, cfg=CFG_NDEBUG, tier="quick"):
 
 
 TRACK_GROUP = ["crc_cycle", "CRC16Base_update", "CRC16Base_update_bit", "reverse_bit_order", "BitStream_raw_pos",
-               "BitStream_rawbit", "BitStream_getbit", "BitStream_size", "mfm_read_byte"]
+               "BitStream_rawbit", "BitStream_getbit", "BitStream_size", "mfm_read_byte",
+               "track_constants", "BitStream_scan_for", "copy_mfm_bytes", "CCITT_CRC16_init", "CRC16Base_get", "check_crc_with_a1s",
+               "decode_sector_address_and_size"]
 
 
 def track_J(Job, cfg, name, entry, enforce, tier="quick", **kw):
@@ -193,8 +195,7 @@ def bitstream_jobs(Job, cfg=CFG_NDEBUG, tier="quick"):
                track_J(Job, c2, "bitstream_rawbit", "h_rawbit", ["BitStream_rawbit"], tier),
                track_J(Job, c2, "bitstream_size", "h_size", ["BitStream_size"], tier),
                track_J(Job, c2, "bitstream_getbit", "h_getbit", ["BitStream_getbit"], tier, replace=["BitStream_raw_pos", "BitStream_rawbit"]),
-               track_J(Job, c2, "mfm_read_byte", "h_mfm_read_byte", ["mfm_read_byte"], "thorough", replace=["BitStream_getbit", "BitStream_size"], cover=True, timeout=3000,
-                       cbmc=["--unwindset", "mfm_read_byte_wrapped_for_contract_checking.0:9,mfm_read_byte.0:9", "--unwinding-assertions"])]
+               track_J(Job, (c2[0], c2[1] + ["VERIF_TRACK_UNBOUNDED"]), "mfm_read_byte", "h_mfm_read_byte", ["mfm_read_byte"], tier, replace=["BitStream_getbit", "BitStream_size"], cover=True, loops=True, solver="portfolio", timeout=1200)]
     return js
 
 
@@ -410,3 +411,19 @@ def colstream_jobs(Job, cfg=CFG_NDEBUG, tier="quick"):
                 defines=list(cfg[1]), extract=ext(g), tier=tier),
             Job("D_colstream_update_col_%s" % cfg[0], "harness/dfs_colstream.c", "h_update_col", enforce=["colstream_update_col"],
                 replace=["colstream_tab"], defines=list(cfg[1]), extract=ext(g), tier=tier)]
+
+
+# ---- the MFM decoder (C06 first sentence) --------------------------------------------------------------------------
+def mfm_decoder_jobs(Job, cfg=CFG_NDEBUG, tier="quick"):
+    js = [track_J(Job, cfg, "crc_get", "h_crc_get", ["CRC16Base_get"], tier),
+          track_J(Job, cfg, "crc_init", "h_crc_init", ["CCITT_CRC16_init"], tier),
+          track_J(Job, cfg, "decode_sector_address", "h_decode_addr", ["decode_sector_address_and_size"], tier)]
+    for stride in (1, 2):
+        c2 = (cfg[0] + "_stride%d" % stride, list(cfg[1]) + ["VERIF_STRIDE=%d" % stride, "VERIF_TRACK_UNBOUNDED"] + os.environ.get("VERIF_XDEF", "").split())
+        js += [track_J(Job, c2, "bitstream_scan_for", "h_scan_for", ["BitStream_scan_for"], tier, replace=["BitStream_raw_pos", "BitStream_rawbit"], loops=True),
+               track_J(Job, (c2[0], c2[1] + ["CRC_MAXLEN=1035"]), "copy_mfm_bytes", "h_copy_mfm", ["copy_mfm_bytes"], tier, replace=["mfm_read_byte"], loops=True, cover=True, solver="portfolio", timeout=1200)]
+    for n, t in ((27, tier), (264, "thorough")):
+        c2 = (cfg[0] + "_max%d" % n, list(cfg[1]) + ["CRC_MAXLEN=%d" % n])
+        js.append(track_J(Job, c2, "check_crc_with_a1s", "h_check_crc", ["check_crc_with_a1s"], t, replace=["CRC16Base_update", "CRC16Base_get", "CCITT_CRC16_init"],
+                          cover=True, timeout=2400, cbmc=["--unwindset", "h_fill_crc.0:%d" % (n + 2), "--unwinding-assertions"]))
+    return js
